@@ -216,9 +216,36 @@ func vhBuildMap(storage SlabStorage, addr Address, b *vDigesterBuilder, counts [
 
 // vhCheckMap: structural validity (repository verifier re-hashes every key
 // through the digester builder) and dictionary content equal to the model.
+// vhCheckGroupSlabs: the library's verifier checks the ELEMENTS of an external
+// collision group but not the header of the slab that holds them; that header's
+// size is what the slab reports (C06) and what its register is checked against
+// after a reload, so it is recomputed here from the elements, and so is the
+// first digest.
+func vhCheckGroupSlabs(st SlabStorage, what string) {
+	var slabs map[SlabID]Slab
+	switch x := st.(type) {
+	case *BasicSlabStorage:
+		slabs = x.Slabs
+	case *vLogStorage:
+		slabs = x.BasicSlabStorage.Slabs
+	default:
+		return
+	}
+	for _, s := range slabs {
+		g, ok := s.(*MapDataSlab)
+		if !ok || !g.collisionGroup {
+			continue
+		}
+		vhAssert(g.header.size == mapDataSlabPrefixSize+g.elements.Size(), what+": external group slab reports the size of its elements")
+		vhAssert(g.header.firstKey == g.elements.firstKey(), what+": external group slab reports its first digest")
+		vhAssert(g.anySize && g.extraData == nil, what+": external group slab is an unlimited non-root slab")
+	}
+}
+
 func vhCheckMap(m *OrderedMap, addr Address, model []vhKV, what string) {
 	err := VerifyMap(m, addr, vTypeInfo{id: 42}, vhTic, vhHip, true)
 	vhAssert(err == nil, what+": VerifyMap")
+	vhCheckGroupSlabs(m.Storage, what)
 	vhAssert(m.Count() == uint64(len(model)), what+": count")
 	for _, kv := range model {
 		v, err := m.Get(vhCompare, vhHip, kv.key)
